@@ -560,6 +560,72 @@ func run(s *kernel.Sim, c *scen.Case) {
 	net := simnet.New(s, cfg)
 	a, b := net.Pipe("A", "B", "10.0.0.1:1000", "10.0.0.2:9618")
 	sa, sb := stream.NewStream(a), stream.NewStream(b)
+	if p.Enc && p.Comp == nil && p.Sweep == nil && t.Chance("prologue", 1, 3) {
+		// a cleartext phase before the key, as a handshake is: what it carried (empty messages and
+		// empty final frames included) is part of what the first protected frames authenticate
+		var bodies [2][][]byte
+		for d := 0; d < 2; d++ {
+			for i, n := 0, t.Choose("prologue.n", 4); i < n; i++ {
+				switch t.Choose("prologue.kind", 3) {
+				case 0:
+					bodies[d] = append(bodies[d], []byte{})
+				case 1:
+					bodies[d] = append(bodies[d], fill(t, 1+t.Choose("prologue.len", 200), byte(0x30+i)))
+				case 2:
+					bodies[d] = append(bodies[d], fill(t, 4096, byte(0x60+i))) // WriteMessage flushes at 4 KiB: the final frame is empty
+				}
+			}
+		}
+		pst := [2][2]*stream.Stream{{sa, sb}, {sb, sa}}
+		var bad [2]string
+		for d := 0; d < 2; d++ {
+			d := d
+			s.Go(fmt.Sprintf("prologue-send%d", d), func() {
+				for _, b := range bodies[d] {
+					var err error
+					if len(b) == 4096 {
+						pst[d][0].StartMessage()
+						if err = pst[d][0].WriteMessage(ctx, b); err == nil {
+							err = pst[d][0].EndMessage(ctx)
+						}
+					} else {
+						err = pst[d][0].SendMessage(ctx, b)
+					}
+					if err != nil {
+						bad[d] = fmt.Sprintf("send: %v", err)
+						return
+					}
+				}
+			})
+			s.Go(fmt.Sprintf("prologue-recv%d", d), func() {
+				for i, b := range bodies[d] {
+					got, err := pst[d][1].ReceiveCompleteMessage(ctx)
+					if err != nil {
+						if !errors.Is(err, simnet.ErrSimEnded) {
+							bad[d] = fmt.Sprintf("receive %d: %v", i, err)
+						}
+						return
+					}
+					if !bytes.Equal(got, b) {
+						bad[d] = fmt.Sprintf("message %d differs (%d bytes sent, %d received)", i, len(b), len(got))
+						return
+					}
+				}
+			})
+		}
+		s.Run()
+		for d := 0; d < 2; d++ {
+			if bad[d] != "" {
+				s.Violate("message-differs", "cleartext-prologue", fmt.Sprintf("cleartext phase before the key, direction %d: %s", d, bad[d]))
+				return
+			}
+		}
+		if s.Overrun || s.Quiescent {
+			s.Probe("prologue-inconclusive")
+			return
+		}
+		s.Probe("cleartext-prologue-before-key")
+	}
 	if p.Enc {
 		key := t.Bytes("key", 32)
 		if err := sa.SetSymmetricKey(key); err != nil {
